@@ -1,9 +1,10 @@
 """C07 discrete maximum principle"""
 from .common import jobs_for
 LEVEL = 'proof'
-LEVEL_TEXT = 'per-row hypotheses of the discrete maximum principle are proved on the real builders for a symbolic cell on all 9 grids: off-diagonals of -diffusion(D>=0)+upwind(u) are <= 0 (ghost columns included, every sign pattern of u), no other entries, diagonal = -(off-diagonals) + div(u); the transient term adds alpha/dt on the diagonal and alpha*old/dt on the right-hand side, the linear sink beta_P on the diagonal (C12/C06 contracts); ghost rows are the Robin relation (C03), hence Dirichlet ghost = 2c - inner, no-flux ghost = inner, periodic ghost = opposite cell; the maximum principle itself for such a row system is the Lean lemma dmp_upper / dmp_lower (lemmas/FVLemmas.lean, checked by lake build with Mathlib)'
-LEVEL_NOTE = 'the correspondence between the SMT-proved per-row clauses and the hypotheses of the Lean lemma (table in DESIGN.md Appendix D) is part of the trusted base (A6); several steps follow by induction on the step count; floating-point round-off can exceed the bound by ulps (A1); elimination of the face ghosts by the boundary rows is elementary algebra on the proved row identities and is carried out in DESIGN.md, not mechanised'
-MODULES = ['contracts.ops', 'contracts.solver', 'contracts.bc']
+LEVEL_TEXT = 'per-row hypotheses of the discrete maximum principle are proved on the real builders for a symbolic cell on all 9 grids: off-diagonals of -diffusion(D>=0)+upwind(u) are <= 0 (ghost columns included, every sign pattern of u), no other entries, diagonal = -(off-diagonals) + div(u); the transient term adds alpha/dt on the diagonal and alpha*old/dt on the right-hand side, the linear sink beta_P on the diagonal (C12/C06 contracts); ghost rows are the Robin relation (C03); the face-ghost unknowns are ELIMINATED symbolically with the traced rows of boundaryConditionsTerm for boundaries set through the real fixedValue / defaultNoFlux / periodic methods (every Dirichlet/no-flux combination per axis, periodic axes on arbitrary -- also unequal -- end cells, single-cell axes) and the eliminated row is proved to have non-positive off-diagonals, non-negative weights on the Dirichlet data and diagonal = -(off-diagonals) + weights + div(u) (contracts/dmp.py); the maximum principle itself for such a row system is the Lean lemma dmp_upper / dmp_lower (lemmas/FVLemmas.lean, checked by lake build with Mathlib)'
+LEVEL_NOTE = 'the correspondence between the SMT-proved per-row clauses and the hypotheses of the Lean lemma (table in DESIGN.md Appendix D) is part of the trusted base (A6); several steps follow by induction on the step count; floating-point round-off can exceed the bound by ulps (A1); the per-axis eliminated-row clauses add up over the axes (sum of proved identities / inequalities, not separately mechanised)'
+MODULES = ['contracts.ops', 'contracts.solver', 'contracts.bc', 'contracts.dmp']
+NOT_MACHINE_CHECKED = ['correspondence between the SMT-proved per-row clauses (E0-E3 of contracts/dmp.py, transient and sink contracts) and the hypotheses of the Lean lemmas dmp_upper / dmp_lower (table in DESIGN.md Appendix D)', 'induction over the number of time steps (each step maps an interval into itself)', 'floating-point round-off (the bound can be exceeded by ulps)']
 TRUSTED = ['A1', 'A2', 'A4', 'A5', 'A6', 'UF']
 
 
